@@ -89,12 +89,16 @@ fn check_list(ctx: &Ctx, sim: &Sim, rt: &tokio::runtime::Runtime, c: &ListCase, 
             l.requests.push(req.raw().to_string());
             l.parsed.push(req.clone());
             match req {
-                Request::List { bucket, prefix, max_keys, .. } => {
-                    // the simulator answers from its own bucket model (prefix filter, bucket order, max-keys)
-                    let m: Vec<Obj> = all2.iter().filter(|o| o.key.starts_with(prefix.as_str())).take(max_keys.unwrap_or(1000)).cloned().collect();
-                    let total = all2.iter().filter(|o| o.key.starts_with(prefix.as_str())).count();
+                Request::List { bucket, prefix, max_keys, continuation, .. } => {
+                    // the simulator answers from its own bucket model (prefix filter, bucket order,
+                    // max-keys, ListObjectsV2 paging with continuation tokens)
+                    let matching_all: Vec<Obj> = all2.iter().filter(|o| o.key.starts_with(prefix.as_str())).cloned().collect();
+                    let (m, next) = match page(&matching_all, *max_keys, continuation) {
+                        Ok(x) => x,
+                        Err(()) => return Response::xml(400, invalid_argument_xml()),
+                    };
                     let mut objs = m;
-                    let mut trunc = total > max_keys.unwrap_or(1000);
+                    let mut trunc = next.is_some();
                     let mut order = 0;
                     match fault {
                         1 => trunc = true,
@@ -111,7 +115,8 @@ fn check_list(ctx: &Ctx, sim: &Sim, rt: &tokio::runtime::Runtime, c: &ListCase, 
                         _ => {}
                     }
                     let _ = &served;
-                    let body = list_xml(bucket, prefix, &objs, trunc, order);
+                    // fault 1 = the truncation flag without a token (a server that does not page)
+                    let body = list_xml_tok(bucket, prefix, &objs, trunc, order, if fault == 1 { None } else { next.as_deref() });
                     if split > 0 {
                         let bytes = body.as_bytes();
                         let cut = if split >= 100 {
@@ -189,8 +194,15 @@ fn check_list(ctx: &Ctx, sim: &Sim, rt: &tokio::runtime::Runtime, c: &ListCase, 
         }
         Caught::Ret(Got::Names(names, times)) => {
             st.outcome("ok");
-            if !c.realtime && (c.fault == 1 || naturally_truncated) {
+            let complete: Vec<String> = matching.iter().map(|o| o.key.rsplit('/').next().unwrap_or("").to_string()).collect();
+            if !c.realtime && c.fault == 1 {
                 ctx.fail("list_files:truncated_listing_accepted", || format!("{:?}: {} identifiers returned from a truncated listing", c, names.len()), wit);
+            } else if !c.realtime && naturally_truncated {
+                // the listing spans several pages: an error is fine, the complete listing (an
+                // implementation that follows the continuation tokens) is fine, a part of it is not
+                if names != complete {
+                    ctx.fail("list_files:truncated_listing_silently_partial", || format!("{:?}: {} of {} identifiers returned as Ok", c, names.len(), complete.len()), wit);
+                }
             } else if size_fault_applies {
                 ctx.fail(&format!("{api}:unparsable_size_accepted:{fault}"), || format!("{:?}", c), wit);
             } else if matches!(c.fault, 0 | 1 | 6 | 7 | 9 | 10 | 11) {
@@ -445,7 +457,7 @@ pub fn run(ctx: &'static Ctx) -> (&'static str, Value, Vec<&'static str>) {
             }
         }
     }
-    for big in [999usize, 1000, 1001] {
+    for big in [999usize, 1000, 1001, 1500, 2500] {
         for realtime in [false, true] {
             for fault in [0usize, 1] {
                 lists.push(ListCase { split: 0, realtime, objs: vec![(0, 1, true)], fault, max_keys: if realtime { 100 } else { 0 }, big, framing: 0 });
